@@ -91,6 +91,11 @@ theorem link_other {s : State} (h : Inv s) {c p z : Nat} :
           · next e => subst e; rw [hk] at hz; cases hz
           · exact hz
 
+theorem link_other_n (s : State) (c p : Nat) : (link s c p).1.n = s.n := by
+  rcases link_cases s c p with ⟨e, _⟩ | ⟨ks, _, _, hcase⟩
+  · rw [e]
+  · rcases hcase with ⟨_, e⟩ | ⟨_, e⟩ | ⟨q, _, _, e⟩ <;> rw [e]
+
 /-! ### monotonicity of the worklist -/
 
 theorem loop_mono (fixed : Bool) : ∀ (f : Nat) (s : State) (pending : List Nat) (z : Nat),
